@@ -32,7 +32,8 @@ fn check_rr(p: &Prepared, input: &[u8], sched: &Sched, rr: &RunResult) -> Option
         }
         Some((i, r)) => return Some(format!("call #{i} failed unexpectedly: {}", r.short())),
     }
-    if has_text_handler(&p.cfg) && !roundtrips(p.encoding, input) {
+    let rt = if p.cfg.adjust_charset { roundtrips_meta(p.encoding, input) } else { roundtrips(p.encoding, input) };
+    if has_text_handler(&p.cfg) && !rt {
         // documented exception: text is normalised through decode/encode. Only schedule
         // invariance of the output is demanded.
         if sched.cuts.is_empty() && sched.empty_at.is_none() {
@@ -139,6 +140,14 @@ pub fn run_check(ctx: &Ctx) -> i32 {
     let l1 = Levels { l1: true, l2_max_len: 0, bytewise: true, empties: false };
     let l12 = Levels { l1: true, l2_max_len: 14, bytewise: true, empties: true };
     let k = F.len();
+    // charset declarations honoured (adjust_charset_on_meta_tag): the text after the declaration is
+    // decoded and re-encoded in the new encoding
+    let meta_cfgs: Vec<Prepared> = menu
+        .iter()
+        .filter(|(n, _)| ["none", "doc-text", "everything", "el(a[b])"].contains(n))
+        .map(|(_, hs)| Prepared::new(Cfg { adjust_charset: true, ..Cfg::with(hs.clone()).strict(false) }).unwrap())
+        .collect();
+    sweep(ctx, &format!("7 charset-declaring prefixes x F<={} x 4 configs with adjust_charset_on_meta_tag x L0,L1,LB", if ctx.quick() { 2 } else { 3 }), Space::MetaFrags { k, max: if ctx.quick() { 2 } else { 3 } }, &meta_cfgs, l1);
     if ctx.quick() {
         sweep(ctx, "F<=2 x full menu x strict{t,f} x L0,L1,L2(len<=14),LB,LE", Space::Frags { k, max: 2 }, &full, l12);
         sweep(ctx, "Fcore<=3 x full menu x L0,L1,LB", Space::Frags { k: F_CORE, max: 3 }, &full, l1);
